@@ -45,7 +45,8 @@ def gen_case(rng, name):
         # no constant criterion
         for j in range(m):
             if len({r[j] for r in c["matrix"]}) == 1:
-                c["matrix"][0][j] += 1.0
+                hi = (gen.NARROW.get((c.get("dtypes") or [None] * m)[j]) or (None, float("inf")))[1]
+                c["matrix"][0][j] += 1.0 if c["matrix"][0][j] + 1 <= hi else -1.0     # inside the storage type
     if name in T.FILTERS and name != "FilterNonDominated":
         k = rng.randint(1, m)
         crits = rng.sample(c["criteria"], k)
